@@ -93,6 +93,10 @@ type leaderController struct {
 	quorumAckTracker  QuorumAckTracker
 	followers         map[string]FollowerCursor
 
+	// Serializes the allocation of an offset with the append of that entry to the WAL,
+	// so that concurrent writers append in offset order
+	appendLock sync.Mutex
+
 	// This represents the last entry in the WAL at the time this node
 	// became leader. It's used in the logic for deciding where to
 	// truncate the followers.
@@ -792,6 +796,9 @@ func (lc *leaderController) writeBlock(ctx context.Context, requestSupplier func
 
 func (lc *leaderController) write(ctx context.Context, requestSupplier func(offset int64) *proto.WriteRequest, cb concurrent.Callback[*proto.WriteResponse]) {
 	timer := lc.writeLatencyHisto.Timer()
+	lc.appendLock.Lock()
+	defer lc.appendLock.Unlock()
+
 	lc.Lock()
 	if err := checkStatusIsLeader(lc.status); err != nil {
 		lc.Unlock()
